@@ -84,7 +84,10 @@ def gen_cases(tier, seed):
     for rtv in (2, -1, 255, 65536):
         cases.append("classify %d 000009000200000010b4000102030405060708" % rtv)
         cases.append("classify %d 8000" % rtv + "00" * 22)
-    return cases, {"plain_grid": n_plain, "radiotap_prefixes": len(pre), "random": nr, "total": len(cases)}
+    from . import frames as F
+    wide = F.wide(rng, q)
+    cases += ["classify %d %s" % (rt, hx(buf)) for rt, buf in wide["classify"] + wide["mgmt"][-2:]]
+    return cases, {"frames_over_65535_bytes": len(wide["classify"]) + 2, "plain_grid": n_plain, "radiotap_prefixes": len(pre), "random": nr, "total": len(cases)}
 
 
 def judge(case, impl, model, spec=None):
